@@ -578,7 +578,7 @@ func filledByCountingLoop(fn *ssa.Function, sl *ssa.Slice, xpath string, origin 
 			continue
 		}
 		cmp, isB := iff.Cond.(*ssa.BinOp)
-		if !isB || cmp.Op != token.LSS || derived[cmp.Y] != origin || !safeFrom(cmp.Y, origin) {
+		if !isB || !countsTo(hdr, cmp, origin, derived) {
 			continue
 		}
 		// the loop exit must dominate the slice expression
@@ -609,6 +609,68 @@ func filledByCountingLoop(fn *ssa.Function, sl *ssa.Slice, xpath string, origin 
 		return true
 	}
 	return false
+}
+
+// countsTo: the loop headed by hdr runs (at most) origin times: its condition is `i < n` with n the decoded count
+// (any spelling: n > i, !(i >= n)), or it counts the decoded count down to zero (`for r := n; r > 0; r--`, r != 0,
+// r >= 1, 0 < r).
+func countsTo(hdr *ssa.BasicBlock, cmp *ssa.BinOp, origin ssa.Value, derived map[ssa.Value]ssa.Value) bool {
+	isCount := func(v ssa.Value) bool { return derived[v] == origin && derived[v] != nil && safeFrom(v, origin) }
+	// i < n
+	for _, form := range []struct {
+		op   token.Token
+		x, y ssa.Value
+	}{{cmp.Op, cmp.X, cmp.Y}, {mirrorTok(cmp.Op), cmp.Y, cmp.X}} {
+		if form.op == token.LSS && isCount(form.y) && !isCount(form.x) {
+			return true
+		}
+	}
+	// count-down from n
+	for _, form := range []struct {
+		op   token.Token
+		x, y ssa.Value
+	}{{cmp.Op, cmp.X, cmp.Y}, {mirrorTok(cmp.Op), cmp.Y, cmp.X}} {
+		ph, isPhi := form.x.(*ssa.Phi)
+		k, isK := form.y.(*ssa.Const)
+		if !isPhi || !isK || k.Value == nil || ph.Block() != hdr {
+			continue
+		}
+		kv := k.Value.String()
+		if !(form.op == token.GTR && kv == "0" || form.op == token.NEQ && kv == "0" || form.op == token.GEQ && kv == "1") {
+			continue
+		}
+		initOK, stepOK := false, false
+		for i, e := range ph.Edges {
+			if hdr.Dominates(hdr.Preds[i]) {
+				// latch: ph - 1
+				if b, isB := e.(*ssa.BinOp); isB && b.Op == token.SUB && b.X == ssa.Value(ph) {
+					if one, isOne := b.Y.(*ssa.Const); isOne && one.Value != nil && one.Value.String() == "1" {
+						stepOK = true
+					}
+				}
+			} else if isCount(e) {
+				initOK = true
+			}
+		}
+		if initOK && stepOK {
+			return true
+		}
+	}
+	return false
+}
+
+func mirrorTok(op token.Token) token.Token {
+	switch op {
+	case token.LSS:
+		return token.GTR
+	case token.GTR:
+		return token.LSS
+	case token.LEQ:
+		return token.GEQ
+	case token.GEQ:
+		return token.LEQ
+	}
+	return op
 }
 
 // safeFrom: v is origin, possibly through conversions that cannot change the
